@@ -19,3 +19,22 @@ kproof! {
     fn k04d_zlib_lengths_3() { zlib_equiv::<3>(3, 7); }
 }
 kproof! { fn k04d_zlib_lengths_4() { zlib_equiv::<4>(3, 7); } }
+
+/// K04d-single: the degenerate cases of the length calculation (no symbol or exactly ONE symbol used: a block with
+/// only literals of one value, or whose matches all use one distance code) agree with the reference build: which dummy
+/// second symbol completes the code is part of the stored format (the reader predicts the same lengths)
+fn zlib_single<const N: usize>(limit: usize) {
+    let mut f = [0u16; N];
+    let idx: usize = kani::any();
+    kani::assume(idx < N);
+    let v: u16 = kani::any();
+    f[idx] = v; // v == 0: no symbol used at all
+    let a = super::verif_export::zlib_lengths(&f, limit);
+    let b = preflate_ref::huffman_calc::verif_export::zlib_lengths(&f, limit);
+    assert!(a.1 == b.1, "number of code lengths differs from the reference build");
+    let mut i = 0;
+    while i < 8 { assert!(a.0[i] == b.0[i], "code length differs from the reference build"); i += 1; }
+    kani::cover!(v != 0 && idx == 1, "only symbol 1 used");
+    kani::cover!(v == 0, "no symbol used");
+}
+kproof! { fn k04d_zlib_lengths_single() { zlib_single::<6>(15); zlib_single::<6>(7); } }
